@@ -167,6 +167,9 @@ func (g *gen) drawPlan(name, typ string) clientPlan {
 	}
 	if !ok {
 		p = place(t, typ, clienttypes.NewHeight(uint64(rapid.IntRange(0, 3).Draw(t, "safeRev")), 0xff00+uint64(rapid.IntRange(1, 1000).Draw(t, "safeHeight"))), nUpd)
+		for i := range p.UpdRevs {
+			p.UpdRevs[i] = p.Rev
+		}
 	}
 	p.Name = name
 	p.Vals = rapid.SampledFrom([]int{1, 2, 3}).Draw(t, "vals")
@@ -379,6 +382,36 @@ func (g *gen) mkPacket(src, dst string, seq uint64) (packettypes.Packet, []byte)
 	return p, bz
 }
 
+// writeAckFirst writes the acknowledgement of the oldest received packet that has none yet.
+func (g *gen) writeAckFirst() {
+	if len(g.recvd) == 0 {
+		return
+	}
+	p := g.recvd[0]
+	g.recvd = g.recvd[1:]
+	ack, err := packettypes.NewAcknowledgement(0, []byte("ok"), "", g.tss.Acc.String(), 0).ABIPack()
+	kit.Must(err, "pack ack")
+	kit.Must(g.e.c.App.XIBCKeeper.PacketKeeper.WriteAcknowledgement(g.e.ctx, &p, ack), "WriteAcknowledgement")
+	g.packetKeys++
+	g.cl.add("packet:ack")
+	g.logf("writeAck %s>%s#%d", p.SrcChain, p.DstChain, p.Sequence)
+}
+
+// ackFirst relays the acknowledgement of the oldest open packet sent to TSS-secured chain d (deletes its commitment).
+func (g *gen) ackFirst(d string) {
+	p := g.sent[d][0]
+	g.sent[d] = g.sent[d][1:]
+	bz, err := p.ABIPack()
+	kit.Must(err, "pack")
+	ack, err := packettypes.NewAcknowledgement(0, []byte("ok"), "", g.tss.Acc.String(), 0).ABIPack()
+	kit.Must(err, "pack ack")
+	msg := packettypes.NewMsgAcknowledgement(bz, ack, []byte{}, clienttypes.NewHeight(0, 1), g.tss.Acc)
+	kit.Must(g.e.c.App.XIBCKeeper.PacketKeeper.AcknowledgePacket(g.e.ctx, msg), "AcknowledgePacket")
+	g.packetKeys--
+	g.cl.add("packet:commitment_deleted_by_ack")
+	g.logf("ack %s>%s#%d", p.SrcChain, p.DstChain, p.Sequence)
+}
+
 func (g *gen) packets() {
 	t := g.t
 	pk := g.e.c.App.XIBCKeeper.PacketKeeper
@@ -399,6 +432,9 @@ func (g *gen) packets() {
 			g.cl.add("packet:commitment")
 			g.cl.add("packet:send_sequence")
 			g.logf("send %s>%s#%d", g.native, d.Name, seq)
+			if d.Type == tTSS && rapid.IntRange(0, 2).Draw(t, "ackAtOnce") == 0 {
+				g.ackFirst(d.Name)
+			}
 		case "recv":
 			ts := g.tssClients()
 			if len(ts) == 0 {
@@ -421,18 +457,11 @@ func (g *gen) packets() {
 				g.cl.add("packet:huge_sequence")
 			}
 			g.logf("recv %s>%s#%d", s.Name, g.native, seq)
-		case "writeAck":
-			if len(g.recvd) == 0 {
-				continue
+			if rapid.Bool().Draw(t, "ackWritten") {
+				g.writeAckFirst()
 			}
-			p := g.recvd[0]
-			g.recvd = g.recvd[1:]
-			ack, err := packettypes.NewAcknowledgement(0, []byte("ok"), "", g.tss.Acc.String(), 0).ABIPack()
-			kit.Must(err, "pack ack")
-			kit.Must(pk.WriteAcknowledgement(ctx, &p, ack), "WriteAcknowledgement")
-			g.packetKeys++
-			g.cl.add("packet:ack")
-			g.logf("writeAck %s>%s#%d", p.SrcChain, p.DstChain, p.Sequence)
+		case "writeAck":
+			g.writeAckFirst()
 		case "ack":
 			// acknowledgement of a packet sent to a TSS-secured chain: deletes the commitment
 			var cands []string
@@ -444,18 +473,7 @@ func (g *gen) packets() {
 			if len(cands) == 0 {
 				continue
 			}
-			d := cands[rapid.IntRange(0, len(cands)-1).Draw(t, "ackDst")]
-			p := g.sent[d][0]
-			g.sent[d] = g.sent[d][1:]
-			bz, err := p.ABIPack()
-			kit.Must(err, "pack")
-			ack, err := packettypes.NewAcknowledgement(0, []byte("ok"), "", g.tss.Acc.String(), 0).ABIPack()
-			kit.Must(err, "pack ack")
-			msg := packettypes.NewMsgAcknowledgement(bz, ack, []byte{}, clienttypes.NewHeight(0, 1), g.tss.Acc)
-			kit.Must(pk.AcknowledgePacket(ctx, msg), "AcknowledgePacket")
-			g.packetKeys--
-			g.cl.add("packet:commitment_deleted_by_ack")
-			g.logf("ack %s>%s#%d", p.SrcChain, p.DstChain, p.Sequence)
+			g.ackFirst(cands[rapid.IntRange(0, len(cands)-1).Draw(t, "ackDst")])
 		case "setRecv":
 			// receipt + acknowledgement of a packet from a proof-secured counterparty, written the way
 			// RecvPacket / WriteAcknowledgement write them after a verified proof
